@@ -69,6 +69,12 @@ def signal_scn(r, sid):
 
 
 def blockon_scn(r, sid):
+    if r.random() < 0.25:
+        # block_on(TimeoutFuture): spurious wake-ups from another thread must not complete it early
+        ms = r.choice([3, 8, 15])
+        ops = ["wakeup" for _ in range(r.choice([0, 1, 3]))]
+        sched = [0, 0] + [r.choice([0, 1, 1]) for _ in range(12)]
+        return {"id": sid, "kind": "blockon", "threads": {"1": ops}, "loop": [{"op": "block_on_timeout", "need": ms}], "schedule": sched}
     need = r.choice([0, 1, 2])
     stop_first = r.random() < 0.3
     ops = [{"op": "wake", "f": 0} for _ in range(need + r.choice([0, 1]))]
